@@ -110,6 +110,7 @@ package keymap
 //@   ensures [prefix-waits] typed && result1 ==> len(m.keys.buf) == 0 && len(result3) == len(result2) && len(result2) > 0 && bprefix(binds, result2)
 //@   ensures [exact-runs-its-bind] typed && !result1 && len(result2) > 0 && len(result3) == len(result2) ==> !bprefix(binds, result2) && anykey(s, binds, conv(s) == result2 && result0 == binds[s])
 //@   ensures [rejected-key] typed && !result1 && len(result3) < len(result2) ==> !bprefix(binds, result2) && (len(result0.Action) == 0 || (result0 == old(m.prefixed) && len(result3) == 0) || (len(result3) >= 1 && anykey(s, binds, conv(s) == result3 && result0 == binds[s])))
+//@   ensures [rejected-means-no-command] typed && !result1 && len(result3) < len(result2) ==> !bexact(binds, result2) || anykey(s, binds, conv(s) == result2 && len(binds[s].Action) == 0)
 //@   ensures [rejected-unbound] typed && !result1 && len(result3) < len(result2) && len(result0.Action) == 0 ==> len(result3) + 1 == len(result2)
 //@   ensures [returns-active] len(result2) > 0 ==> result0 == m.active
 //@   ensures [no-keys-no-command] len(result2) == 0 ==> len(result0.Action) == 0 && !result0.Macro && !result1
@@ -158,6 +159,8 @@ package keymap
 //@   ensures [runs-bound-sequence] !result2 && len(result0.Action) > 0 ==> anykey(s, maintbl(eng), conv(s) == u[:len(u) - len(eng.keys.buf)] && result0 == mget(maintbl(eng), s))
 //@   ensures [no-keys-no-command] len(u) == 0 ==> len(result0.Action) == 0 && !result2
 //@   ensures [caller-keys] !result2 && len(result0.Action) > 0 ==> eng.keys.matched == runes(u[:len(u) - len(eng.keys.buf)])
+//@   ensures @C02 [typed-char-resolves] len(u) > 0 && bexact(maintbl(eng), u[:1]) && !bprefix(maintbl(eng), u[:1]) && allkeys(s, maintbl(eng), conv(s) == u[:1] ==> mget(maintbl(eng), s).Action == "self-insert" && !mget(maintbl(eng), s).Macro) ==> !result2 && result0.Action == "self-insert" && eng.keys.buf == u[1:] && eng.keys.matched == runes(u[:1])
+//@   ensures @C02 [utf8-byte-not-dropped] len(u) > 0 && u[0] >= 128 && !bexact(maintbl(eng), u[:1]) && !bprefix(maintbl(eng), u[:1]) ==> result0.Action == "self-insert"
 
 //@ spec localtbl(eng *Engine) map[string]inputrc.Bind = mget(eng.config.Binds, eng.local)
 
